@@ -721,7 +721,7 @@ def mk_case(tree, ref, family, rng, drop=(), tag='', zeros=(), rmn=None):
         # reaches the template uncast inside a Scope) raises ZeroDivisionError, numpy zeros (ints in a dict are cast
         # to int64) give inf -- what a zero divisor does is not a matter of parameters
         div = any(n['k'] == 'ari' and n['op'] == '/' for n in nodes(tree))
-        c['vt'] = rng.choice(['np'] if div else ['np', 'scope', 'str', 'float'])
+        c['vt'] = rng.choice(['np', 'npsmall'] if div else ['np', 'npsmall', 'scope', 'str', 'float'])
         if rng.random() < 0.5:
             c['vt2'] = 'int'
     return c
@@ -737,7 +737,7 @@ def mk_history(tree, ref, rng, drop=()):
     # a Python float 0.0 as divisor of an ArithmeticPT raises ZeroDivisionError where int / numpy zeros give inf: not
     # a matter of parameters (notes: outside C03), so no float values next to a division
     div = any(n['k'] == 'ari' and n['op'] == '/' for n in nodes(tree))
-    vts = ['int', 'np'] if div else ['int', 'float', 'np']
+    vts = ['int', 'np', 'npsmall'] if div else ['int', 'float', 'np', 'npsmall']
     vt = rng.choice(['int'] + vts)
     steps = [{'set': {}, 'vt': vt}]
     if cand and rng.random() < 0.8:
@@ -1187,6 +1187,10 @@ def directed_channel_cases():
         ('swap_ari', mp({'k': 'ari', 'inner': amc2(), 'op': '+', 'side': 'r', 'sa': [], 'sc': [['A', V('p2')]]}, swap)),
         ('swap_swap', mp(mp(amc2(), swap, [{'op': '<', 'l': V('p0'), 'r': C(5)}]), swap)),
         ('swap_seq', {'k': 'seq', 'subs': [mp(amc2(), swap), amc2()], 'cs': [], 'ms': []}),
+        # the mapped child given as a tuple (template, channel mapping) / (template, parameters, channels, measurements)
+        ('swap_seq_tuple', {'k': 'seq', 'subs': [dict(mp(amc2(), swap), tup=True), amc2()], 'cs': [], 'ms': []}),
+        ('swap_seq_tuple3', {'k': 'seq', 'cs': [], 'ms': [], 'subs': [
+            dict(mp(tb2(), swap), tup=True, m={'p0': ['-', V('p2'), C(3)]}, mren={'m': 'mm'}, cs=[]), amc2()]}),
         ('rename_in_amc', {'k': 'amc', 'subs': [mp(_const(V('p0'), 'Z1'), {'Z1': 'A'}), _const(V('p1'), 'B')],
                            'cs': [], 'ms': []}),
         ('rename_loop', {'k': 'for', 'idx': 'i1', 'a': C(0), 'b': C(2), 'st': C(1), 'cs': [], 'ms': [],
@@ -1328,7 +1332,7 @@ def directed_frame_cases(full):
 HM = 2 ** 61 - 1          # hash(n) == hash(n + HM) for Python ints; hash(-1) == hash(-2) == -2
 # (satisfying value, violating value with the same Python hash, value type)
 H_PAIRS = [(-1, -2, 'int'), (-2, -1, 'int'), (-1, -2, 'float'), (-1, -2, 'np'), (-2, -1, 'np'), (-1, -2 - HM, 'int'),
-           (5, 5 + HM, 'int'), (0, -HM, 'int'), (-2, -1, 'float'), (1, 1 - HM, 'np')]
+           (5, 5 + HM, 'int'), (0, -HM, 'int'), (-2, -1, 'float'), (1, 1 - HM, 'np'), (-1, -2, 'npsmall')]
 H_SHAPES = ['gb', 'gbg', 'bgb', 'mgb', 'ggb']        # g = satisfying, b = violating, m = the constrained name missing
 H_POSITIONS = ['top', 'seq', 'rep', 'loop', 'map', 'maptop']
 
@@ -1769,8 +1773,9 @@ def _build_pt(n, tsw, memo):
     def sub(q):
         """a child of a SequencePT / AtomicMultiChannelPT: a constraint-free MappingPT flagged 'tup' is given as the
         tuple (template, parameter mapping[, channel mapping][, measurement mapping]) (MappingPT.from_tuple)"""
-        if q['k'] == 'map' and q.get('tup') and not q['cs'] and q['m'] and not q.get('tsw') and q.get('oid') is None:
-            tup = (build_pt_(q['inner']), {key: estr(e) for key, e in q['m'].items()})
+        if (q['k'] == 'map' and q.get('tup') and not q['cs'] and (q['m'] or q.get('ren') or q.get('mren'))
+                and not q.get('tsw') and q.get('oid') is None):
+            tup = (build_pt_(q['inner']),) + (({key: estr(e) for key, e in q['m'].items()},) if q['m'] else ())
             for extra in ('ren', 'mren'):
                 if q.get(extra):
                     tup += (dict(q[extra]),)
@@ -1834,7 +1839,10 @@ def py_value(q, vt='int'):
         return float(q)
     if vt == 'str':          # create_program evaluates non-numbers with Expression(value).evaluate_numeric()
         return str(q)
-    if vt == 'np':
+    if vt == 'npsmall' and q.denominator == 1 and -128 <= q < 256:
+        import numpy as np         # small / unsigned numpy integers (create_program converts them like Python ints)
+        return np.uint8(int(q)) if q >= 0 else np.int8(int(q))
+    if vt in ('np', 'npsmall'):
         import numpy as np
         if q.denominator == 1:
             return np.int64(int(q)) if abs(q) < 2 ** 62 else int(q)
